@@ -37,6 +37,12 @@ type oracle struct {
 	inlinedCall map[pdf.Reference]int             // call during which a reference was first made direct
 	altCall     int                               // >= 0: also accept the relation as of that call
 
+	// streams whose writing may have been delayed (write modes "open" and
+	// "late"): how many were seen, and how the sizes of consecutive ones compare
+	delayedStreams int
+	lastDelayedLen int64
+	sizeRel        map[string]bool
+
 	inParms bool   // comparing a /DecodeParms entry (as opposed to /Filter)
 	parms   string // non-empty while inside a /DecodeParms dictionary: its form
 	cls     map[string]bool
@@ -341,6 +347,24 @@ func (o *oracle) cmpStream(so *srcObj, got pdf.Object, path string) error {
 	o.cls["stream"] = true
 	o.streams = append(o.streams, stm.Length())
 	o.streamClasses(so)
+	if so.crypt == 0 {
+		// (explicit /Crypt /Identity streams are not decrypted by the Copier)
+		if o.sizeRel == nil {
+			o.sizeRel = map[string]bool{}
+		}
+		if o.delayedStreams > 0 {
+			switch l := int64(len(so.data)); {
+			case l < o.lastDelayedLen:
+				o.sizeRel["smaller"] = true
+			case l == o.lastDelayedLen:
+				o.sizeRel["equal"] = true
+			default:
+				o.sizeRel["larger"] = true
+			}
+		}
+		o.delayedStreams++
+		o.lastDelayedLen = int64(len(so.data))
+	}
 	if err := o.cmpDict(so.dict, stm.Dict, path+" (stream dictionary)", true); err != nil {
 		return err
 	}
